@@ -232,6 +232,28 @@ def doCfg (l : Line) : Option String := do
   | "derivative" => some (show' o.derivative)
   | _ => none
 
+/-- `cfgg …`: as `cfg`, but the returned instance is computed by `Op.adjointBy` /
+`Op.derivativeBy` from the GENERATED `adjSpec` / `derivSpec` (round 4), not by the hand-written
+`Op.adjoint` / `Op.derivative`. -/
+def doCfgG (l : Line) : Option String := do
+  let act ← l.get? "act"
+  let kind ← l.get? "kind" >>= kindOf
+  let m ← method? l "method"
+  let p ← pad? l "pad"
+  let c ← l.crat? "c"
+  let o : Op CRat := ⟨kind, m, p, c, false⟩
+  let lin (r : Op CRat) := if r.isLinear Gen.FiniteDiff.affineAware then 1 else 0
+  let show' (r : Op CRat) :=
+    s!"ok linear={lin o} neg={if r.neg then 1 else 0} kind={kindStr r.kind} method={methodStr r.method} pad={padStr r.pad} c={r.c.str} rlinear={lin r}"
+  match act with
+  | "adjoint" =>
+    match o.adjointBy Gen.FiniteDiff.affineAware Gen.FiniteDiff.adjGuarded
+        Gen.FiniteDiff.adjSpec Gen.FiniteDiff.adjMethod Gen.FiniteDiff.adjPad with
+    | some r => some (show' r)
+    | none => some s!"err:value linear={lin o}"
+  | "derivative" => some (show' (o.derivativeBy Gen.FiniteDiff.derivSpec))
+  | _ => none
+
 /-- `tables` → the generated lists and dictionaries, for comparison with the live module. -/
 def doTables (_ : Line) : Option String :=
   let ms := Gen.FiniteDiff.methods
@@ -251,6 +273,7 @@ def handle (l : Line) : Option String :=
   | "ndn" => doNdN l
   | "tables" => doTables l
   | "cfg" => doCfg l
+  | "cfgg" => doCfgG l
   | _ => none
 
 def main : IO Unit := driverLoop handle
